@@ -669,6 +669,27 @@ def check_property(prop, spec, tier, seed, replay=None, keep=False):
             unreproduced += 1
             log("watchdog expiry not reproduced: %s" % h.get("key"))
 
+    # cross-validation of the history oracle: histories on which the harness's checker found nothing, dumped by
+    # the harness (param xcheck), are re-checked by the independent Python implementation; a disagreement means one
+    # of the two oracles is wrong - that is a harness failure (exit 2), never a verdict on the code
+    xfiles = sorted(glob.glob(os.path.join(workdir, "*", "xcheck-*.jsonl")))
+    if xfiles:
+        def offline(p):
+            r0 = subprocess.run([sys.executable, os.path.join(VERIF, "monitors", "history.py"), p],
+                                stdout=subprocess.PIPE, stderr=subprocess.STDOUT, text=True)
+            return p, r0.returncode, r0.stdout
+        agree = 0
+        for p, rc0, out0 in pool.map(offline, xfiles):
+            if rc0 == 0:
+                agree += 1
+            else:
+                keep_p = os.path.join(evroot, "evidence", "replays", "%s-xcheck-%s" % (prop, os.path.basename(p)))
+                shutil.copyfile(p, keep_p)
+                failures.append("oracle disagreement: harness checker silent, monitors/history.py reports %s on %s" % (
+                    " | ".join(out0.strip().splitlines()[:3])[:600], os.path.relpath(keep_p, VERIF)))
+        total.counters["histories_cross_checked_offline"] = len(xfiles)
+        total.counters["histories_cross_checked_agreeing"] = agree
+
     # classify
     by_key = {}
     for v in total.violations:
